@@ -109,21 +109,27 @@ def job_slice(T, Fc, asc, geom):
     return recs
 
 
-def job_dedrift(T, Fc, asc, geom, sign, via_metadata):
+def job_dedrift(T, Fc, asc, geom, sign, via_metadata, gapped=False):
+    """gapped: the frame's time axis is not the default one (a consolidated cadence: absolute times with slew gaps);
+    rows are still shifted by their row index, round(|d| * i * dt / df), and the axis is carried over as it is"""
     recs = []
-    tag = f"C17:dedrift:{(T, Fc, asc, geom, sign, via_metadata)}"
+    tag = f"C17:dedrift:{(T, Fc, asc, geom, sign, via_metadata)}" + (':gapped' if gapped else '')
     g = inject.GEOMS[geom]
     dfv, dtv = g['df'], g['dt']
     d = Sym(z3.Real('drift'))
     t0 = Sym(z3.Real('t_start'))
     lim = (Fc + 1) * dfv / (T * dtv)
     pre = [d.t >= 0, d.t <= RV(lim)] if sign > 0 else [d.t < 0, d.t >= RV(-lim)]
+    if gapped:
+        pre = pre + [z3.Real('t_gap') >= 0, z3.Real('t_gap') <= 1000, z3.Real('t_abs') >= 0]
     D = sym_data(T, Fc)
     again = [None]
 
     def run():
         fr = make_frame(T, Fc, asc, Sym(RV(dfv)), Sym(RV(dtv)), Sym(RV(g['fch1'])), t_start=t0, source_name='SRC_B')
         fr.data = D.copy()
+        if gapped:
+            fr.ts = fr.ts + npx.sarr([Sym(z3.Real('t_abs')) + (i // 2) * Sym(z3.Real('t_gap')) for i in range(T)])
         if via_metadata:
             fr.add_metadata({'drift_rate': d})
             out = DD.dedrift(fr)
@@ -144,7 +150,7 @@ def job_dedrift(T, Fc, asc, geom, sign, via_metadata):
         conds.append(leaf.cond())
         name = f"{tag}:leaf{k}"
         base = pre + leaf.pc + leaf.side
-        mk_pl = lambda m: dict(fn='dedrift', T=T, Fc=Fc, asc=asc, geom=geom, drift=core.model_float(m, d), via_metadata=via_metadata)
+        mk_pl = lambda m: dict(fn='dedrift', T=T, Fc=Fc, asc=asc, geom=geom, drift=core.model_float(m, d), via_metadata=via_metadata, gapped=gapped, t_gap=core.model_float(m, z3.Real('t_gap')) if gapped else 0.0)
         if leaf.kind == 'exc':
             # ValueError exactly when no channels would be left
             ok_exc = isinstance(leaf.value, ValueError)
@@ -180,7 +186,8 @@ def job_dedrift(T, Fc, asc, geom, sign, via_metadata):
             for j in range(W):
                 for c in range(Fc):
                     dis.append(z3.And(sh0 + j == c, lift(out.fs[j]) != lift(fr.fs[c])))
-            dis += [lift(a) != lift(b) for a, b in zip(out.ts, fr.ts)]
+            if not gapped:        # (what time axis a frame derived from a gapped one carries is not part of the statement)
+                dis += [lift(a) != lift(b) for a, b in zip(out.ts, fr.ts)]
             dis += [lift(out.df) != lift(fr.df), lift(out.dt) != lift(fr.dt)]
             # a linear path lands on one column to within one channel (centre deviation <= 1/2 per row)
             for i in range(T):
@@ -388,6 +395,8 @@ def replay_dedrift(p):
     D = fr.data.copy()
     d = p['drift']
     T, Fc = p['T'], p['Fc']
+    if p.get('gapped'):
+        fr.ts = fr.ts + 1.7e9 + (np.arange(T) // 2) * max(p.get('t_gap', 0.0), 37.5)
     offs = [int(np.round(abs(d) * i * fr.dt / fr.df)) for i in range(T + 1)]
     mo = offs[T]
     try:
@@ -463,6 +472,8 @@ def main():
                 for sign in (1, -1):
                     jobs.append(('job_dedrift', (T, Fc, asc, geom, sign, False)))
             jobs.append(('job_dedrift', (T, Fc, asc, 'g1', 1, True)))
+            if T >= 2:
+                jobs.append(('job_dedrift', (T, Fc, asc, 'g1', -1 if asc else 1, False, True)))
     for axis in ('t', 'f'):
         for mode in ('mean', 'sum'):
             jobs.append(('job_integrate_normalized', (2, 3, axis, mode)))
